@@ -49,7 +49,7 @@ func (s *scBuilder) empty(n int) {
 	}
 }
 
-var scenarioNames = []string{"govupdate", "alleg2", "govexpire", "stakecycle", "olvmmix", "ethlock", "bidflow"}
+var scenarioNames = []string{"govupdate", "alleg2", "govexpire", "stakecycle", "olvmmix", "ethlock", "bidflow", "oddfields"}
 
 // the genesis variant a scenario needs
 func scenarioGenesis(name string) string {
@@ -126,6 +126,24 @@ func scenarioHistory(name string, w *World) *History {
 		s.empty(3)
 		s.block([][]byte{txRelease(v2, s.memo()), txSend(u0, u1.Addr, oltAmt("1000000000000"), s.memo())}, "release", "send")
 		s.empty(3)
+	case "oddfields":
+		// well-signed transactions whose optional or free-form fields are EMPTY or odd: what a handler or a store
+		// fills in for a missing value (an id, a name, a memo, a uri) must be the same on every node and every run
+		v0, v1, v2 := w.Vals[0], w.Vals[1], w.Vals[2]
+		s.empty(5)
+		s.block([][]byte{
+			txAllegation(v0, "", v1.Val.Addr, 6, s.memo()), // no request id
+			txDomainCreate(u0, "odd.ol", oltAmt("1002000000000000000000"), ""),
+			txSend(u1, u2.Addr, oltAmt("1000000000000"), ""),
+			txPropCreate(u2, "", governance.ProposalTypeGeneral, oltAmt("1000000000"), 30, 0, s.memo()),
+		}, "allegation empty-id", "domain create empty-memo", "send empty-memo", "prop create empty-id")
+		s.block([][]byte{
+			txAllegationVote(v0, "", 1, s.memo()), txAllegationVote(v2, "", 1, s.memo()),
+			txSend(u1, u2.Addr, oltAmt("1000000000000"), ""), // the same bytes again
+		}, "allegation vote empty-id", "allegation vote empty-id", "send empty-memo again")
+		s.empty(3)
+		s.block([][]byte{txRelease(v1, s.memo()), txSend(u0, u1.Addr, oltAmt("1000000000000"), s.memo())}, "release", "send")
+		s.empty(2)
 	case "govexpire":
 		s.empty(2)
 		s.block([][]byte{txPropCreate(u0, "exp1", governance.ProposalTypeGeneral, oltAmt("1000000000"), 7, 0, s.memo()),
